@@ -78,6 +78,7 @@ type Contract struct {
 	Exhaustive bool // decided by running the real function on every input of its (small) domain
 	Calls      []*CallSpec // obligations at call sites inside the function
 	Split      bool        // prove postconditions separately for each way into a return
+	SafetyOnly []string    // with NoSafety: kinds of safety obligations that are generated all the same
 	NoSafety   bool        // do not generate safety obligations (absence of panics is assumed)
 	NoConn     bool        // assumed not to touch the ghost state of connections
 	SweepFrame bool        // default frame from a sweep with option frame: pointer parameters and fresh objects only
@@ -420,7 +421,11 @@ func parseContractFile(rel, src string) (*pkgSpec, error) {
 					cur.Notes = append(cur.Notes, rest)
 				}
 			case "nosafety":
+				// nosafety [except kind ...]: e.g. `nosafety except close`
 				cur.NoSafety = true
+				if w, r := splitWord(rest); w == "except" {
+					cur.SafetyOnly = append(cur.SafetyOnly, strings.Fields(r)...)
+				}
 			case "split":
 				// postconditions are proved once per edge into a returning block (a
 				// case split along the last branching, e.g. the arms of a switch)
